@@ -118,6 +118,40 @@ Theorem c17_rows_disk_prefix :
 Proof. exact cb_disk_prefix. Qed.
 Print Assumptions c17_rows_disk_prefix.
 
+(* ---- reading the table back from disk ----------------------------------------
+   results.csv.zip = DataFrame(rows).to_csv, read with pd.read_csv.  Modelled: the columns
+   (union of the row keys), one line per row in order, a missing / NaN / None cell written
+   as an empty field and read back as "no value".  The TEXT level is an explicit
+   hypothesis [text_ok]: a value that is not NA, written with [render] and read with
+   [parse], comes back as a value related by [R] ("the same up to the last digits of
+   floating-point text"; R = eq is "a finite float printed with repr and parsed back is
+   the same float").  pandas' writer/reader themselves are exercised by the driver only.
+   Then, for EVERY table: same number of rows, same order, and every cell of every row
+   comes back R-related; cells without a value come back without a value. *)
+Theorem c17_csv_roundtrip :
+  forall (T : Type) (render : value -> T) (parse : T -> option value) (is_na : value -> bool)
+         (R : value -> value -> Prop)
+         (text_ok : forall v, is_na v = false -> exists v', parse (render v) = Some v' /\ R v v')
+         (rows : list dict),
+    let back := csv_read parse (csv_write render is_na rows) in
+    length back = length rows /\
+    forall i r, nth_error rows i = Some r ->
+      exists b, nth_error back i = Some b /\
+        forall k, match dget k r with
+                  | Some v => if is_na v then dget k b = None
+                              else exists v', dget k b = Some v' /\ R v v'
+                  | None => dget k b = None
+                  end.
+Proof. exact @csv_roundtrip. Qed.
+Print Assumptions c17_csv_roundtrip.
+
+(* the columns of the file: each once, and every key of every row is a column *)
+Theorem c17_csv_columns :
+  forall rows : list dict,
+    NoDup (columns rows) /\ forall r k v, In r rows -> dget k r = Some v -> In k (columns rows).
+Proof. exact columns_spec. Qed.
+Print Assumptions c17_csv_columns.
+
 (* ---- best trial reported by the tuner ---------------------------------------
    For EVERY history of update calls, metric and mode: nothing handed -> None
    (Tuner.best_config then fails); otherwise the reported (t, v) is the entry of the
